@@ -263,7 +263,7 @@ def finish(prop, tier, seed, k1, tres, t0):
         return 3
     if undecided:
         return 2
-    if nobl <= 0:
+    if nobl <= 0 and nbounded <= 0:
         print('CHECKER-ERROR: no obligations for property %s' % prop)
         return 3
     return 0
